@@ -20,7 +20,7 @@ func isHTTPS(t string) bool { return t == "PAN-OS" || t == "NSX" }
 // point where rec was received in the baseline run.
 func deviationsAt(sc *dscenario, rec sim.Rec) []string {
 	if isHTTPS(sc.devType) {
-		l := []string{sim.DevHTTP500, sim.DevHTTP403, sim.DevHTTP502E, sim.DevHTTP400J, sim.DevMalformed, sim.DevClose, sim.DevStall, sim.DevAPIError,
+		l := []string{sim.DevHTTP500, sim.DevHTTP403, sim.DevHTTP502E, sim.DevHTTP400J, sim.DevMalformed, sim.DevClose, sim.DevStall, sim.DevStallBody, sim.DevAPIError,
 			sim.DevRedirClose, sim.DevRedirLoop}
 		if rec.Class == sim.ClSave {
 			l = append(l, sim.DevCommitMsg, sim.DevJobFail, sim.DevJobPend)
@@ -212,6 +212,11 @@ func c09Oracle(x *dialogx) func(c *dcase, r *drun, base *drun) {
 		viaDo := strings.HasPrefix(sc.front, "do-")
 		if r.panicMsg != "" {
 			x.violation(c, r, "no-panic", "panic", "runtime panic: "+r.panicMsg)
+			return
+		}
+		if r.hung > 0 {
+			x.violation(c, r, "stop-after-failure", "waits-forever:"+sc.devType+":stall-body",
+				fmt.Sprintf("the reply stalled inside its body and the client was still waiting after %v (configured time-out 1 s)", sim.StallBodyMax))
 			return
 		}
 		fi := failurePoint(r)
